@@ -157,7 +157,7 @@ theorem applySpecial_wt (fn : String) (args : List Term) (h : ∀ a ∈ args, a.
           · split at hc
             · cases hc; exact wt_real _
             · exact fixReal_wt _ _ h hc
-          · cases hc
+          · exact fixReal_wt _ _ h hc
         · exact fixReal_wt _ _ h hc
       · cases hc
     · split at hc
